@@ -412,7 +412,34 @@ func TestO4GraphShape(t *testing.T) {
 		}
 	}
 	rec(0)
-	res := map[string]interface{}{"name": "O4", "ok": fail == nil, "bound": bound, "specs_enumerated": enumerated, "specs_compiled": compiled, "languages_compared": compared,
+	// scaling: a few long specs of simple shape (the enumeration above stops at `bound` tokens) must compile, within the same
+	// 3 s watchdog and without a crash: a row of optional groups (compilation time must not double per group) and long rows of atoms
+	long := []string{strings.Repeat("[-a] [-b] [X] ", 12), strings.Repeat("X ", 3000), strings.Repeat("[X] ", 400), strings.Repeat("(-a | -b | X) ", 40), strings.Repeat("X... ", 300)}
+	for _, spec := range long {
+		if fail != nil {
+			break
+		}
+		func() {
+			defer func() {
+				if r := recover(); r != nil {
+					fail = map[string]string{"spec": fmt.Sprintf("%.40s... (%d characters)", spec, len(spec)), "problem": fmt.Sprintf("compiling a long spec crashes: %v", r)}
+				}
+			}()
+			current.Store(fmt.Sprintf("%.40s... (%d characters)", spec, len(spec)))
+			started.Store(time.Now().UnixNano())
+			ltoks, lerr := lexer.Tokenize(spec)
+			var perr error
+			if lerr == nil {
+				params.Spec = spec
+				_, perr = Parse(ltoks, params)
+			}
+			started.Store(0)
+			if lerr != nil || perr != nil {
+				fail = map[string]string{"spec": fmt.Sprintf("%.40s... (%d characters)", spec, len(spec)), "problem": fmt.Sprintf("a long well-formed spec is rejected: %v %v", lerr, perr)}
+			}
+		}()
+	}
+	res := map[string]interface{}{"name": "O4", "ok": fail == nil, "bound": bound, "long_specs_compiled": len(long), "specs_enumerated": enumerated, "specs_compiled": compiled, "languages_compared": compared,
 		"alphabet": o4Alphabet}
 	if fail != nil {
 		res["counterexample"] = fail
